@@ -333,20 +333,28 @@ impl<'a> Interpreter<'a> {
                 ByteCode::MkDict(size) => {
                     let mut map = HashMap::new();
 
-                    for _ in 0..*size {
-                        let key = if let CelValue::String(key) = stack.pop_val()? {
-                            key
-                        } else {
-                            return Err(CelError::value("Only strings can be used as Object keys"));
-                        };
+                    let mut bad_key = false;
 
+                    for _ in 0..*size {
+                        let key = stack.pop_val()?;
                         // entries come off the stack last to first and the
                         // last entry of the literal wins for a repeated key
                         let value = stack.pop_val()?;
-                        map.entry(key).or_insert(value);
+                        if let CelValue::String(key) = key {
+                            map.entry(key).or_insert(value);
+                        } else {
+                            bad_key = true;
+                        }
                     }
 
-                    stack.push_val(map.into());
+                    // a map that cannot be built is a failed operand like any other
+                    if bad_key {
+                        stack.push_val(CelValue::from_err(CelError::value(
+                            "Only strings can be used as Object keys",
+                        )));
+                    } else {
+                        stack.push_val(map.into());
+                    }
                 }
                 ByteCode::Index => {
                     let index = stack.pop_val()?;
@@ -451,10 +459,10 @@ impl<'a> Interpreter<'a> {
                             }
 
                             match callable {
-                                RsCallable::Function(func) => {
-                                    let arg_values = self.resolve_args(args)?;
-                                    stack.push_val(func(value, arg_values));
-                                }
+                                RsCallable::Function(func) => match self.resolve_args(args) {
+                                    Ok(arg_values) => stack.push_val(func(value, arg_values)),
+                                    Err(err) => stack.push_val(self.failed_argument(err)?),
+                                },
                                 RsCallable::Macro(macro_) => {
                                     stack.push_val(self.call_macro(&value, &args, macro_)?);
                                 }
@@ -470,8 +478,11 @@ impl<'a> Interpreter<'a> {
                             match value {
                                 CelValue::Ident(func_name) => {
                                     if let Some(func) = self.get_func_by_name(&func_name) {
-                                        let arg_values = self.resolve_args(args)?;
-                                        stack.push_val(func(CelValue::from_null(), arg_values));
+                                        match self.resolve_args(args) {
+                                            Ok(arg_values) => stack
+                                                .push_val(func(CelValue::from_null(), arg_values)),
+                                            Err(err) => stack.push_val(self.failed_argument(err)?),
+                                        }
                                     } else if let Some(macro_) = self.get_macro_by_name(&func_name)
                                     {
                                         stack.push_val(self.call_macro(
@@ -482,8 +493,11 @@ impl<'a> Interpreter<'a> {
                                     } else if let Some(CelValue::Type(type_name)) =
                                         self.get_type_by_name(&func_name)
                                     {
-                                        let arg_values = self.resolve_args(args)?;
-                                        stack.push_val(construct_type(type_name, arg_values));
+                                        match self.resolve_args(args) {
+                                            Ok(arg_values) => stack
+                                                .push_val(construct_type(type_name, arg_values)),
+                                            Err(err) => stack.push_val(self.failed_argument(err)?),
+                                        }
                                     } else {
                                         let not_callable = CelError::runtime(&format!(
                                             "{} is not callable",
@@ -499,10 +513,12 @@ impl<'a> Interpreter<'a> {
                                         stack.push_val(CelValue::from_err(not_callable));
                                     }
                                 }
-                                CelValue::Type(type_name) => {
-                                    let arg_values = self.resolve_args(args)?;
-                                    stack.push_val(construct_type(&type_name, arg_values));
-                                }
+                                CelValue::Type(type_name) => match self.resolve_args(args) {
+                                    Ok(arg_values) => {
+                                        stack.push_val(construct_type(&type_name, arg_values))
+                                    }
+                                    Err(err) => stack.push_val(self.failed_argument(err)?),
+                                },
                                 other => stack.push_val(
                                     CelValue::from_err(CelError::runtime(&format!(
                                         "{:?} cannot be called",
@@ -521,17 +537,27 @@ impl<'a> Interpreter<'a> {
                     }
 
                     let mut working = String::new();
+                    let mut failed = None;
                     for seg in segments.into_iter().rev() {
-                        if let CelValue::String(s) = seg {
-                            working.push_str(&s)
-                        } else {
-                            return Err(CelError::Runtime(
-                                "Expected string from format string specifier".to_string(),
-                            ));
+                        match seg {
+                            CelValue::String(s) => working.push_str(&s),
+                            // the first embedded expression that fails is the result
+                            CelValue::Err(err) => {
+                                failed = Some(err);
+                                break;
+                            }
+                            _ => {
+                                return Err(CelError::Runtime(
+                                    "Expected string from format string specifier".to_string(),
+                                ))
+                            }
                         }
                     }
 
-                    stack.push_val(CelValue::String(working));
+                    match failed {
+                        Some(err) => stack.push_val(CelValue::from_err(err)),
+                        None => stack.push_val(CelValue::String(working)),
+                    }
                 }
             };
         }
@@ -586,6 +612,19 @@ impl<'a> Interpreter<'a> {
         }
 
         Ok(res)
+    }
+
+    // An argument that fails makes the call fail: the error is the value of the
+    // call, just as the failure of an operand is the value of an operator, so
+    // `||`, `?:` and `match` around the call see an ordinary failure. While the
+    // compiler folds constants the failure stays fatal (the argument may read
+    // a variable that is bound later).
+    fn failed_argument(&self, err: CelError) -> CelResult<CelValue> {
+        if self.is_compile_time() {
+            Err(err)
+        } else {
+            Ok(CelValue::from_err(err))
+        }
     }
 
     fn resolve_args(&self, args: Vec<CelValue>) -> Result<Vec<CelValue>, CelError> {
